@@ -25,6 +25,7 @@ var harnesses = map[string]func(*vsched.H){
 	"LimitStack":           harness.LimitStack,
 	"NIP11Chain":           harness.NIP11Chain,
 	"CacheConcurrent":      harness.CacheConcurrent,
+	"VerifyConcurrent":     harness.VerifyConcurrent,
 	"CacheHandlerSessions": harness.CacheHandlerSessions,
 }
 
